@@ -1,6 +1,7 @@
 import SafeNet.Base.Sha3
 import SafeNet.Proofs.Wire
 import SafeNet.Proofs.WireCbor
+import SafeNet.Proofs.WireSize
 /-!
 # C12 — record and message encodings round-trip and stay wire-stable
 
@@ -647,7 +648,137 @@ theorem message_opens_with_kind (t : CTree)
   · exact Or.inl ⟨p, rfl, by rw [(message_wire_form _ p []).1]; rfl⟩
   · exact Or.inr ⟨p, rfl, by rw [(message_wire_form _ p []).1]; rfl⟩
 
+/-! ### the codec's size limits against the messages honest nodes send -/
+
+/-- the limits are those of the libp2p-request-response version locked in Cargo.lock (regenerated from its source: the readers
+`io.take(..)` them, the writers check nothing), a node holds up to `MAX_RECORDS_COUNT` records, and the largest worst-case
+advertisement that still fits the request limit is far smaller than that -/
+theorem codec_limits :
+    requestCap = 1048576 ∧ responseCap = 10485760 ∧ maxRecordsCount = 16384 ∧ replicateFits = 8594 ∧
+    replicateFits < maxRecordsCount := by decide
+
+/-- **replicate_size_closed_form**: the written size of the honest `Cmd::Replicate` advertising `n` records (32-byte record
+keys as the record store keeps them, `NonChunk` content hashes, every byte `b`) is `77 + |array header of n| + n · entrySize b`,
+`entrySize` being 122 for bytes `≥ 24` and 90 below (by induction, not by evaluating the encoder) -/
+theorem replicate_size_closed_form (n b : Nat) (hb : b < 256) :
+    (writeMsg (fillReplicate n b)).length = replicateRequestSize n b ∧
+    replicateRequestSize n b = 77 + (if n < 24 then 1 else if n < 256 then 2 else if n < 65536 then 3 else if n < 4294967296 then 5 else 9)
+      + n * (if b < 24 then 90 else 122) := by
+  refine ⟨SafeNet.WireCbor.replicate_size_closed_form n b hb, ?_⟩
+  simp only [replicateRequestSize, encodeArg_length, SafeNet.Cbor.argLen, entrySize]
+  repeat' split
+  all_goals omega
+
+/-- **honest_replicate_fits_iff**: the worst-case honest advertisement of `n` records is read back by its receiver (through the
+codec's `REQUEST_SIZE_MAXIMUM`) exactly when `n ≤ replicateFits` (= 8594 for today's constants); above that EVERY receiver's
+reader errs — and `MAX_RECORDS_COUNT` is 16384 (`codec_limits`) -/
+theorem honest_replicate_fits_iff (n b : Nat) (hb : 24 ≤ b) (hb' : b < 256) (hn : n < 18446744073709551616) :
+    readCapped requestCap request (writeMsg (fillReplicate n b)) = some (fillReplicate n b, []) ↔ n ≤ replicateFits := by
+  obtain ⟨hfit, hover⟩ := replicate_read n b hb' hn
+  have hsz := (replicate_size_closed_form n b hb').2
+  obtain ⟨c1, _, _, c4, _⟩ := codec_limits
+  rw [c4]
+  have hb24 : ¬ b < 24 := by omega
+  simp only [hb24, if_false] at hsz
+  constructor
+  · intro h
+    by_cases hle : n ≤ 8594
+    · exact hle
+    · exfalso
+      have : requestCap < replicateRequestSize n b := by
+        rw [c1, hsz]; repeat' split
+        all_goals omega
+      rw [hover this] at h; cases h
+  · intro h
+    apply hfit
+    rw [c1, hsz]; repeat' split
+    all_goals omega
+
+/-- the full statement: every honest advertisement of at most `MAX_RECORDS_COUNT` records round-trips.  FALSE today
+(known finding K-r-replicate-exceeds-request-cap; also a C09 matter: a node that cannot get its list decoded advertises nothing) -/
+def HonestReplicateRoundTrips : Prop :=
+  ∀ n b, n ≤ maxRecordsCount → b < 256 →
+    readCapped requestCap request (writeMsg (fillReplicate n b)) = some (fillReplicate n b, [])
+
+/-- witness: 8595 records with hash bytes `0xff` are already undecodable, and a FULL node's list is undecodable whatever the
+bytes are (even in the best case, every hash byte below 24) -/
+theorem honest_replicate_exceeds_cap_witness :
+    ¬ HonestReplicateRoundTrips ∧
+    readCapped requestCap request (writeMsg (fillReplicate 8595 255)) = none ∧
+    (∀ b, b < 256 → readCapped requestCap request (writeMsg (fillReplicate maxRecordsCount b)) = none) := by
+  obtain ⟨c1, _, c3, _, _⟩ := codec_limits
+  have full : ∀ b, b < 256 → readCapped requestCap request (writeMsg (fillReplicate maxRecordsCount b)) = none := by
+    intro b hb
+    apply (replicate_read maxRecordsCount b hb (by rw [c3]; omega)).2
+    rw [(replicate_size_closed_form maxRecordsCount b hb).2, c1, c3]
+    repeat' split
+    all_goals omega
+  refine ⟨?_, ?_, full⟩
+  · intro h
+    have := h maxRecordsCount 0 (Nat.le_refl _) (by omega)
+    rw [full 0 (by omega)] at this; cases this
+  · apply (replicate_read 8595 255 (by omega) (by omega)).2
+    rw [(replicate_size_closed_form 8595 255 (by omega)).2, c1]
+    decide
+
+/-- what does hold: up to `replicateFits` records the advertisement round-trips, whatever its bytes -/
+theorem honest_replicate_roundtrips_partial (n b : Nat) (hb : b < 256) (hn : n ≤ replicateFits) :
+    readCapped requestCap request (writeMsg (fillReplicate n b)) = some (fillReplicate n b, []) := by
+  obtain ⟨c1, _, _, c4, _⟩ := codec_limits
+  rw [c4] at hn
+  apply (replicate_read n b hb (by omega)).1
+  rw [(replicate_size_closed_form n b hb).2, c1]
+  repeat' split
+  all_goals omega
+
+/-- **response_cap_boundary**: a `GetReplicatedRecord` response carrying an `n`-byte record is read back through the codec's
+`RESPONSE_SIZE_MAXIMUM` exactly up to `n = 10485710` (the 10 MiB limit minus the 50 bytes around the payload); a longer one
+is an error of the reader -/
+theorem response_cap_boundary (n b : Nat) (hb : b < 256) (hn : n < 18446744073709551616) :
+    (writeMsg (fillResponse n b)).length = fillResponseSize n ∧
+    (readCapped responseCap (response prettyKeyR) (writeMsg (fillResponse n b)) = some (fillResponse n b, []) ↔ n ≤ 10485710) := by
+  obtain ⟨hfit, hover⟩ := response_read n b hb hn
+  obtain ⟨_, c2, _, _, _⟩ := codec_limits
+  have hsz : fillResponseSize n = 45 + (if n < 24 then 1 else if n < 256 then 2 else if n < 65536 then 3 else if n < 4294967296 then 5 else 9) + n := by
+    simp only [fillResponseSize, encodeArg_length, SafeNet.Cbor.argLen]
+    repeat' split
+    all_goals omega
+  refine ⟨fillResponse_size n b, ?_, ?_⟩
+  · intro h
+    by_cases hle : n ≤ 10485710
+    · exact hle
+    · exfalso
+      have : responseCap < fillResponseSize n := by
+        rw [c2, hsz]; repeat' split
+        all_goals omega
+      rw [hover this] at h; cases h
+  · intro h
+    apply hfit
+    rw [c2, hsz]; repeat' split
+    all_goals omega
+
 end Messages
+
+/-! ### a paid chunk's address cannot be forged either -/
+
+/-- **paid_chunk_addr_recomputed**: a `(ProofOfPayment, Chunk)` record (kind `ChunkWithPayment`), whatever address its chunk
+carried when it was serialised and whatever the proof is, deserialises to the same proof and a chunk whose address is the
+content hash of its bytes -/
+theorem paid_chunk_addr_recomputed (H : List Nat → List Nat) (p : Tree) (c : Chunk)
+    (hp : conforms proofOfPayment p = true) (hpw : treeWf p = true)
+    (hv : c.value.length < 4294967296 ∧ isBytes c.value = true) :
+    fromRecord (trySerializeRecord (.arr [toVal p, c.toVal]) .ChunkWithPayment) = some .ChunkWithPayment ∧
+    (tryDeserializeRecord (trySerializeRecord (.arr [toVal p, c.toVal]) .ChunkWithPayment)).bind
+        (paidChunkOfVal (ofVal proofOfPayment) H) = some (p, { address := H c.value, value := c.value }) := by
+  have hw : WellFormed (.arr [toVal p, c.toVal]) := by
+    have h1 : wf (toVal p) = true := toVal_wf p hpw
+    simp only [WellFormed, Chunk.toVal, wf, wfList, h1, Bool.and_eq_true, decide_eq_true_eq, List.length_cons, List.length_nil]
+    exact ⟨by omega, trivial, ⟨hv.1, hv.2⟩, trivial⟩
+  obtain ⟨h1, h2⟩ := record_roundtrip .ChunkWithPayment _ hw
+  refine ⟨h1, ?_⟩
+  rw [h2]
+  simp only [Option.bind, paidChunkOfVal, Chunk.toVal, ofVal_toVal proofOfPayment p (by decide) hp]
+  rfl
 
 /-! ## non-vacuity -/
 
@@ -716,6 +847,17 @@ example : SafeNet.Cbor.decode [0x9f, 0xff] = none := by decide
 example : SafeNet.Cbor.decode [0xc1, 0] = none := by decide
 example : SafeNet.Cbor.decode [0x19, 0, 5, 9] = some (.uint 5, [9]) := rfl
 example : SafeNet.Cbor.encode (.uint 5) = [5] := by decide
+-- sizes against the codec's limits
+example : replicateRequestSize 8594 255 = 1048548 ∧ replicateRequestSize 8595 255 = 1048670 ∧
+    replicateRequestSize 16384 0 = 1474640 := by decide
+example : (writeMsg (fillReplicate 1 255)).length = 200 := rfl
+example : (writeMsg (fillReplicate 1 23)).length = 168 := rfl
+example : conformsC request (fillReplicate 3 7) = true := by decide
+example : fillResponseSize 10485710 = 10485760 := by decide
+example : writeMsg (fillResponse 2 7) = responsePrefix ++ [0x42, 7, 7] := by decide
+example : paidChunkOfVal (ofVal proofOfPayment) (fun s => 1 :: s) (.arr [.arr [.arr []], .bin [5]]) =
+    some (.tup [.seq []], { address := [1, 5], value := [5] }) := rfl
+example : paidChunkOfVal (ofVal proofOfPayment) (fun s => s) (.arr [.nil, .bin [5]]) = none := rfl
 
 end MessageExamples
 
@@ -774,3 +916,10 @@ end SafeNet.Props.C12
 #print axioms SafeNet.Props.C12.message_wire_names_fixed
 #print axioms SafeNet.Props.C12.message_wire_form
 #print axioms SafeNet.Props.C12.message_opens_with_kind
+#print axioms SafeNet.Props.C12.codec_limits
+#print axioms SafeNet.Props.C12.replicate_size_closed_form
+#print axioms SafeNet.Props.C12.honest_replicate_fits_iff
+#print axioms SafeNet.Props.C12.honest_replicate_exceeds_cap_witness
+#print axioms SafeNet.Props.C12.honest_replicate_roundtrips_partial
+#print axioms SafeNet.Props.C12.response_cap_boundary
+#print axioms SafeNet.Props.C12.paid_chunk_addr_recomputed
